@@ -3,6 +3,8 @@ sys.path.insert(0, os.path.dirname(os.path.abspath(__file__)))
 import vlib
 with vlib.scratch("verif-setup-") as w:
     for pkg in vlib.PKG_DIRS:
+        if pkg == 'kit':
+            continue  # helper package, no tests of its own
         if os.path.isdir(os.path.join(vlib.HARNESS, pkg)) and any(f.endswith(".go") for f in os.listdir(os.path.join(vlib.HARNESS, pkg))):
             vlib.build_test_binary(w, pkg)
             print("built", pkg)
